@@ -232,3 +232,65 @@ def strip_all_mut(t):
     while t[0] == "mutated":
         t = t[1]
     return t
+
+
+def rule_nalgebra_solve(F_unused, ev_unused, R, config, rule="R-NALGEBRA-SOLVE", repo=None):
+    """Dependency contract of the pinned nalgebra for C01: `SVD::solve(b, eps)` returns
+    Vᴴ·D⁺·Uᴴ·b where component i is divided by the singular value σ_i exactly when σ_i > eps and
+    is set to zero when σ_i ≤ eps — "singular values at or below the threshold count as zero" and the
+    minimum-norm solution in the rank-deficient case."""
+    import extract
+    import effects as fx
+    import logic
+    from rules_stats2 import base_alloc
+    path, info = extract.extract_dep(repo or REPO, crate="nalgebra", pkg="nalgebra", body_filter="linalg::svd::SVD")
+    if path is None:
+        R.bad(rule, CFG, "nalgebra", "extract", "cannot extract facts of the pinned nalgebra: %s" % (info.get("error") or "")[-400:])
+        return
+    F = Facts(path)
+    ev = Eval(F)
+    bs = [b for k, b in F.bodies.items() if k.endswith("SVD<T, R, C>>::solve")]
+    if len(bs) != 1:
+        R.bad(rule, CFG, "nalgebra", "anchor-missing", "SVD::solve not found (%d)" % len(bs))
+        return
+    b = bs[0]
+    env = Env(b)
+    me, rhs, eps = ("param", b.key, 1), ("param", b.key, 2), ("param", b.key, 3)
+    L = logic.Logic(ev)
+    stores = [e for e in fx.iteration_effects(ev, env) if e.kind == "store"]
+    utb = None
+    seen = {"unscale": False, "zero": False}
+    for e in stores:
+        ptr, val = e.args
+        if not (ptr[0] == "call" and ptr[1].endswith("IndexMut::index_mut")):
+            continue
+        col, idx = ptr[3]
+        cb = base_alloc(col)
+        if not (cb[0] == "call" and cb[1].rsplit("::", 1)[-1] == "column_mut"):
+            continue
+        M = base_alloc(cb[3][0])
+        utb = M
+        conds = L.conditions_at(e.body, e.env, e.block)
+        sv_i = lambda t: t[0] == "call" and t[1].endswith("Index::index") and t[3][0] == ("field", me, "singular_values")
+        if val[0] == "call" and val[1].endswith("::unscale"):
+            ok = any(c[0] == "rel" and c[1] == "Lt" and c[2] == eps and sv_i(c[3]) for c in conds) and sv_i(val[3][1])
+            seen["unscale"] = True
+            R.add(rule, CFG, b.key, "divide-by-σ_i-only-if-σ_i>eps", ok, "" if ok else "the component is divided by the singular value without σ_i > eps: %s" % [logic.show_f(c)[:60] for c in conds], e.term.get("span"))
+        elif val[0] == "call" and val[1].endswith("Zero::zero"):
+            ok = any(c[0] == "rel" and c[1] == "Le" and sv_i(c[2]) and c[3] == eps for c in conds)
+            seen["zero"] = True
+            R.add(rule, CFG, b.key, "component-zeroed-iff-σ_i≤eps", ok, "" if ok else "the component is zeroed under %s" % [logic.show_f(c)[:60] for c in conds], e.term.get("span"))
+        else:
+            R.bad(rule, CFG, b.key, "unexpected-store", "component set to `%s`" % short(val)[:80], e.term.get("span"))
+    for k, v in seen.items():
+        if not v:
+            R.bad(rule, CFG, b.key, "missing:" + k, "solve() has no `%s` store" % k, b.j["span"])
+    oku = utb is not None and utb[0] == "call" and utb[1].endswith("ad_mul") and utb[3] == (("payload", ("field", me, "u"), "ok", "0"), rhs)
+    R.add(rule, CFG, b.key, "works-on-Uᴴ·b", oku, "" if oku else "the scaled matrix is `%s`" % (short(utb)[:80] if utb else None), b.j["span"])
+    v = ev.ret_val(env)
+    alts = v[1] if v[0] == "phi" else (v,)
+    oks = [a for a in alts if a[0] == "agg" and a[2] == "Ok"]
+    okr = len(oks) == 1 and oks[0][3][0][1][0] == "call" and oks[0][3][0][1][1].endswith("ad_mul") and \
+        oks[0][3][0][1][3][0] == ("payload", ("field", me, "v_t"), "ok", "0") and base_alloc(oks[0][3][0][1][3][1]) == utb
+    R.add(rule, CFG, b.key, "result=Vᴴ·(D⁺·Uᴴ·b)", okr, "" if okr else "solve() returns `%s`" % short(v)[:160], b.j["span"])
+    R.floor(rule, CFG, 4, "solve(): two stores, operand, result")
